@@ -239,6 +239,15 @@ def c18(cases, res):
     images = {}
     for case in cases:
         for i, prev, s in steps_with_prev(case):
+            if prev is not None and is_key(s) and state_of(prev) != "Entering" and key_code(s) == 0 and key_mods(s)[2]:
+                # Caps Lock toggles the language mode in every editor state (pending syllable, open list, highlighting)
+                # and never alters the text in the buffer
+                po, o = opts_of(prev), opts_of(s)
+                # (an auto-commit after the key - limit lowered below the buffer length - is C02's business)
+                same_text = s.res == "Commit" or (prev.snap.get("syms") == s.snap.get("syms") and prev.snap.get("sels") == s.snap.get("sels"))
+                if o[8] != 1 - po[8] or o[9] != po[9] or not same_text:
+                    out.append(fail("capslock-toggle", case, i, "state %s: %s -> %s" % (state_of(prev), po, o)))
+                continue
             if prev is None or not is_key(s) or state_of(prev) != "Entering":
                 continue
             po = opts_of(prev)
